@@ -188,12 +188,23 @@ fn match_single_node_while_skip_trivial<'p, 't: 'p, D: Doc + 't>(
         if goal_children.peek().is_none() {
           return Some(ControlFlow::Fallthrough);
         }
+        // an ellipsis after the skipped goal must be matched by the caller, not as a single node
+        if cand_children.peek().is_some()
+          && try_get_ellipsis_mode(goal_children.peek().unwrap()).is_ok()
+        {
+          return Some(ControlFlow::Continue);
+        }
       }
       MatchOneNode::SkipBoth => {
         cand_children.next();
         goal_children.next();
         if goal_children.peek().is_none() {
           return Some(ControlFlow::Fallthrough);
+        }
+        if cand_children.peek().is_some()
+          && try_get_ellipsis_mode(goal_children.peek().unwrap()).is_ok()
+        {
+          return Some(ControlFlow::Continue);
         }
       }
       // skip trivial node
